@@ -49,6 +49,15 @@ type Case struct {
 	UpPos  []int  `json:"up_fail_pos,omitempty"` // where the failing up command sits: 0 last, 1 first, 2 in the middle (a succeeding one follows)
 	Tasks  []T    `json:"tasks"`
 	Mode   string `json:"mode"` // parallel | sequential | scheduler | cli
+	// cli: how the tasks are spread over the targets of the command line, in order: a target is one task run
+	// directly or a pipeline of N consecutive tasks chained by depends_on (empty = every task a direct target)
+	Targets []Tg `json:"targets,omitempty"`
+}
+
+// Tg is one command-line target.
+type Tg struct {
+	N    int  `json:"n"`
+	Pipe bool `json:"pipeline,omitempty"`
 }
 
 func (c Case) canon() string { b, _ := json.Marshal(c); return string(b) }
@@ -360,9 +369,37 @@ func runCLI(c Case, dir string) error {
 			tk = tk.Set("condition", cond)
 		}
 		tasks = tasks.Set(fmt.Sprint("t", i), tk)
-		argv = append(argv, fmt.Sprint("t", i))
+	}
+	targets := c.Targets
+	if len(targets) == 0 {
+		for range c.Tasks {
+			targets = append(targets, Tg{N: 1})
+		}
+	}
+	pipes := gen.Map{}
+	at := 0
+	for j, tg := range targets {
+		if !tg.Pipe {
+			argv = append(argv, fmt.Sprint("t", at))
+			at++
+			continue
+		}
+		var l gen.List
+		for n := 0; n < tg.N; n++ {
+			st := gen.Map{{K: "task", V: fmt.Sprint("t", at)}}
+			if n > 0 {
+				st = st.Set("depends_on", gen.List{fmt.Sprint("t", at-1)})
+			}
+			l = append(l, st)
+			at++
+		}
+		pipes = pipes.Set(fmt.Sprint("p", j), l)
+		argv = append(argv, fmt.Sprint("p", j))
 	}
 	cfg := gen.Map{{K: "contexts", V: ctxs}, {K: "tasks", V: tasks}}
+	if len(pipes) > 0 {
+		cfg = cfg.Set("pipelines", pipes)
+	}
 	os.WriteFile(filepath.Join(dir, "t.yaml"), []byte(gen.YAML(cfg)), 0o644)
 	env := cli.Env{Bin: drv.Bin(), Dir: dir, Home: filepath.Join(dir, "home")}
 	r := env.Run(append([]string{"-c", "t.yaml", "--raw"}, argv...)...)
@@ -400,6 +437,14 @@ func genCase(rt *rapid.T, mode string) Case {
 		}
 		c.Tasks = append(c.Tasks, t)
 	}
+	if mode == "cli" && rapid.Bool().Draw(rt, "pipeline-targets") {
+		for left := n; left > 0; {
+			tg := Tg{N: rapid.IntRange(1, min(left, 3)).Draw(rt, "target-size")}
+			tg.Pipe = tg.N > 1 || rapid.Bool().Draw(rt, "pipeline-of-one")
+			c.Targets = append(c.Targets, tg)
+			left -= tg.N
+		}
+	}
 	if mode == "cancel" {
 		c.Tasks[rapid.IntRange(0, len(c.Tasks)-1).Draw(rt, "long-task")].Long = true
 	}
@@ -430,6 +475,12 @@ func record(c Case) {
 	}
 	if upFail {
 		cls = append(cls, "failing-up")
+	}
+	for j, tg := range c.Targets {
+		if tg.Pipe && j < len(c.Targets)-1 {
+			cls = append(cls, "cli: a pipeline target followed by further targets")
+			break
+		}
 	}
 	drv.Eval(cls...)
 	if (shared && c.Mode != "sequential") || hookOrCond || upFail {
